@@ -98,6 +98,7 @@ K_NEGLAM = "c19:neg-lambda-empty-cell-nan"
 K_DOCNAME = "c19:documented-lambda-name-rejected"
 K_NOINT = "c19:pearsonr:no-intercept"
 K_INTCOL = "c19:int-column-labels:unconditional-categorical"
+K_RANK = "c19:pearsonr:raw-design-rank-cutoff"
 
 
 # =========================================================================== generators
@@ -215,9 +216,18 @@ def gen_disc(rng, tier):
     big = tier == "thorough"
     ncols = rng.choice([2, 3, 3, 4, 4, 4, 5, 5] + ([6] if big else []))
     cards = [rng.choice([2, 2, 3, 3, 4, 5] + ([6, 7] if big else [])) for _ in range(ncols)]
-    regime = rng.choice(["tiny", "small", "small", "medium", "medium", "large"])
-    n = {"tiny": rng.randint(20, 60), "small": rng.randint(60, 300), "medium": rng.randint(300, 1000),
-         "large": rng.randint(1000, 6000 if big else 2000)}[regime]
+    regime = rng.choice(["micro", "tiny", "tiny", "small", "small", "small", "medium", "medium", "medium", "large",
+                         "large", "huge"])
+    n = {"micro": rng.randint(4, 19), "tiny": rng.randint(20, 60), "small": rng.randint(60, 300),
+         "medium": rng.randint(300, 1000), "large": rng.randint(1000, 6000 if big else 2000),
+         "huge": rng.randint(300, 2000)}[regime]
+    # huge: every row but the last `tail` ones is repeated `rep` times (cell counts in the 1e3..1e5 range, up to
+    # ~120 000 rows; thorough ~300 000) - stored compactly in the spec and expanded by build_df / colmap_of
+    rep = rng.randint(10, 150 if big else 60) if regime == "huge" else 1
+    tail = rng.randint(0, min(50, n - 1)) if regime == "huge" else 0
+    if regime == "huge":
+        ncols = min(ncols, 4)
+        cards = cards[:ncols]
     mode = rng.choice(["iid", "bn", "bn", "bn", "skew", "copy"])
     codes = _sample_codes(rng, cards, n, mode)
     names = _names(rng, ncols)
@@ -228,7 +238,7 @@ def gen_disc(rng, tier):
             uncond.update([p["X"], p["Y"]])
     dts = _frame_dtypes(rng, ncols)
     cols = [_column(rng, names[j], codes[j], dts[j], extra_ok=names[j] not in uncond) for j in range(ncols)]
-    return {"kind": "disc", "mode": mode, "regime": regime, "cols": cols, "probes": probes,
+    return {"kind": "disc", "mode": mode, "regime": regime, "cols": cols, "probes": probes, "rep": rep, "tail": tail,
             "index": rng.choice(["range", "range", "perm", "dup"]), "perm_seed": rng.randrange(10 ** 6)}
 
 
@@ -258,7 +268,9 @@ def gen_indep(rng, tier):
             sx, sy = list(range(kx)), list(range(ky))
         a = [rng.randint(1, 4) for _ in sx]
         b = [rng.randint(1, 4) for _ in sy]
-        m = rng.choice([1, 1, 2, 3, 7])
+        m = rng.choice([1, 1, 1, 2, 3, 7, 50, 1000])
+        while m > 1 and m * sum(a) * sum(b) * len(configs) > 120000:      # bound the frame (<= ~120 000 rows)
+            m = max(1, m // 4)
         for i, x in enumerate(sx):
             for j, y in enumerate(sy):
                 rows.extend([(x, y) + t] * (m * a[i] * b[j]))
@@ -280,6 +292,28 @@ def gen_indep(rng, tier):
             "perm_seed": rng.randrange(10 ** 6), "degenerate_all": degenerate_all}
 
 
+RHO_MAX = 1e6          # |mean| / sd of any stored column: beyond this a float64 column keeps < ~10 digits of the variation
+
+
+def _mean_sd(vals):
+    n = len(vals)
+    m = math.fsum(vals) / n
+    return m, math.sqrt(math.fsum((v - m) ** 2 for v in vals) / n)
+
+
+def _rand_affine(rng, m, sd, a=None):
+    """(a, b): a log-uniform over 1e-8..1e8 (or given), shift 0 or +-10^U(-3,6), the shift reduced where needed so that
+    the stored image a*v+b keeps |mean| <= RHO_MAX * sd (otherwise the float64 column is no longer an affine image of
+    v to the accuracy compared: the spacing of doubles near the mean eats the variation)."""
+    if a is None:
+        a = 10.0 ** rng.uniform(-8, 8) if rng.random() < 0.8 else rng.choice([0.1, 0.5, 1.0, 2.0, 7.5])
+    b = 0.0 if rng.random() < 0.3 else rng.choice([-1.0, 1.0]) * 10.0 ** rng.uniform(-3, 6)
+    m2, s2 = a * m + b, a * sd
+    if abs(m2) > RHO_MAX * s2:
+        b = math.copysign(RHO_MAX * s2, m2) - a * m
+    return [a, b]
+
+
 def gen_cont(rng, tier, for_pc=False):
     big = tier == "thorough"
     ncols = rng.choice([2, 3, 3, 4, 4, 5] + ([6] if big else []))
@@ -288,6 +322,7 @@ def gen_cont(rng, tier, for_pc=False):
     n = rng.choice([rng.randint(50, 120), rng.randint(120, 500), rng.randint(50, 2000 if big else 500)])
     names = [f"v{i}" for i in range(ncols)] if rng.random() < 0.7 else rng.sample(["a", "b", "c", "d", "e", "f", "g"], ncols)
     meanmode = rng.choice(["offset", "offset", "offset", "big", "zero"])
+    units = rng.choice(["plain", "plain", "scaled", "affine"])       # measurement units of the stored columns
     data = []
     for j in range(ncols):
         par = [p for p in range(j) if rng.random() < 0.5]
@@ -296,20 +331,39 @@ def gen_cont(rng, tier, for_pc=False):
         mu = {"offset": rng.uniform(-5, 5), "big": rng.choice([-1, 1]) * rng.uniform(20, 100), "zero": 0.0}[meanmode]
         col = [mu + sd * rng.gauss(0, 1) + sum(c * data[p][i] for c, p in zip(coef, par)) for i in range(n)]
         data.append(col)
-    cols = [{"name": names[j], "dtype": "float", "values": data[j]} for j in range(ncols)]
+    stored, stats = [], {}
+    for j in range(ncols):
+        col = data[j]
+        if units != "plain":
+            m, sd = _mean_sd(col)
+            a, b = _rand_affine(rng, m, sd, a=10.0 ** rng.uniform(-8, 8))
+            if units == "scaled":
+                b = 0.0
+            col = [a * v + b for v in col]
+        stored.append(col)
+        stats[names[j]] = _mean_sd(col)
+    cols = [{"name": names[j], "dtype": "float", "values": stored[j]} for j in range(ncols)]
     probes = []
     for _ in range(3 if ncols >= 3 else 1):
         X, Y = rng.sample(names, 2)
         rest = [c for c in names if c not in (X, Y)]
         Z = rng.sample(rest, min(rng.choice([0, 1, 1, 2, 2, 3]), len(rest)))
+        # affine reparametrisations: X alone, Y alone, one member of Z alone, all variables together
+        groups = [("X", [X]), ("Y", [Y])] + ([("Z", [rng.choice(Z)])] if Z else []) + [("all", [X, Y] + Z)]
         maps = []
-        for tgt in (["X", "Y"] + (["Z"] if Z else [])):
-            v = {"X": X, "Y": Y}.get(tgt) or rng.choice(Z)
-            maps.append({"var": v, "a": rng.choice([0.1, 0.5, 2.0, 7.5, 1.0, 1.0]),
-                         "b": rng.choice([-10.0, -1.5, 3.0, 25.0, 0.0])})
+        for label, vs in groups:
+            tf = {}
+            for v in vs:
+                m, sd = stats[v]
+                if units == "plain":
+                    tf[v] = _rand_affine(rng, m, sd)
+                else:       # keep the composed scale (unit * a) inside 1e-8..1e8 of the natural units
+                    tf[v] = _rand_affine(rng, m, sd, a=10.0 ** rng.uniform(-8, 8) / max(sd, 1e-300))
+            maps.append({"label": label, "tf": tf})
         probes.append({"X": X, "Y": Y, "Z": Z, "ztuple": rng.random() < 0.4, "maps": maps,
                        "alpha": round(rng.uniform(0.001, 0.999), 4)})
-    return {"kind": "cont", "meanmode": meanmode, "cols": cols, "probes": probes, "index": "range", "perm_seed": 0}
+    return {"kind": "cont", "meanmode": meanmode, "units": units, "cols": cols, "probes": probes, "index": "range",
+            "perm_seed": 0}
 
 
 def gen_pc(rng, tier):
@@ -414,30 +468,107 @@ def oracle_cit(tables, lam):
             "negzero": zero and -1 < lam < 0}               # finite statistic although a cell is empty
 
 
-def oracle_pearson(colmap, X, Y, Z):
+EPS = 2.220446049250313e-16
+
+
+def _standardise(vals):
+    """(v - mean) / rms in well-scaled units; also returns rho = |mean| / sd of the stored column."""
+    a = np.asarray(vals, float)
+    m = math.fsum(a.tolist()) / len(a)
+    c = a - m
+    sd = math.sqrt(math.fsum((c * c).tolist()) / len(a))
+    if not sd > 0:
+        raise ValueError("constant column")
+    return c / sd, abs(m) / sd
+
+
+def p_of_r(r, n):
     from scipy.stats import t as tdist
-    x = np.asarray(colmap[X], float)
-    y = np.asarray(colmap[Y], float)
+    r = max(-1.0, min(1.0, r))
+    if abs(r) >= 1.0:
+        return 0.0
+    tval = r * math.sqrt((n - 2) / ((1.0 - r) * (1.0 + r)))
+    return float(2.0 * tdist.sf(abs(tval), n - 2))
+
+
+def oracle_pearson(colmap, X, Y, Z, full=False):
+    """Pearson's test on the residuals of X and Y regressed on Z with intercept, computed after every variable was
+    centred and scaled to unit variance (the partial correlation does not depend on units; in these units the design
+    matrix is as well conditioned as the data allows).  full=True also returns the tolerances a correct float64
+    implementation working in the stored units is allowed: tol_r = 1e-8 + 200*eps*max|mean|/sd + 0.1*eps*kappa([1, Z])*(1 + max |mean|/sd of X, Y)."""
+    x, rho = _standardise(colmap[X])
+    y, rh = _standardise(colmap[Y])
+    rho = rho_xy = max(rho, rh)
     n = len(x)
-    A = np.column_stack([np.ones(n)] + [np.asarray(colmap[z], float) for z in Z])
+    cols = [np.ones(n)]
+    for z in Z:
+        zz, rh = _standardise(colmap[z])
+        rho = max(rho, rh)
+        cols.append(zz)
+    A = np.column_stack(cols)
     rx = x - A @ np.linalg.lstsq(A, x, rcond=None)[0]
     ry = y - A @ np.linalg.lstsq(A, y, rcond=None)[0]
     rx = rx - rx.mean()
     ry = ry - ry.mean()
     r = float(rx @ ry / math.sqrt((rx @ rx) * (ry @ ry)))
     r = max(-1.0, min(1.0, r))
-    if abs(r) >= 1.0:
-        return r, 0.0
-    tval = r * math.sqrt((n - 2) / ((1.0 - r) * (1.0 + r)))
-    return r, float(2.0 * tdist.sf(abs(tval), n - 2))
+    p = p_of_r(r, n)
+    if not full:
+        return r, p
+    kappa = 1.0
+    if Z:
+        c = design_conditioning(colmap, Z)
+        kappa = 1.0 / c["raw"] if c["raw"] > 0 else math.inf
+    # allowance for a correct float64 implementation working in the stored units:
+    #   200 * eps * rho                 cancellation against the column means (observed <= ~3 eps*rho)
+    #   0.1 * eps * kappa * (1+rho_xy)  classical least-squares perturbation bound eps * kappa([1, Z]) * |rhs| / |residual|
+    #                                   (observed <= 2e-4 of eps*kappa*(1+rho_xy) over 13 000 calls on the fixed tree)
+    # when the allowance exceeds 0.05 the case is too ill-conditioned to call (callers skip it, counted as a note)
+    tol_r = 1e-8 + 200.0 * EPS * rho + 0.1 * EPS * kappa * (1.0 + rho_xy)
+    tol_p = 1e-9 + 1e-6 * p + max(abs(p_of_r(r + tol_r, n) - p), abs(p_of_r(r - tol_r, n) - p))
+    return {"r": r, "p": p, "n": n, "rho": rho, "kappa": kappa, "tol_r": tol_r, "tol_p": tol_p}
+
+
+def design_conditioning(colmap, Z):
+    """singular-value ratio of the raw design [1, Z] as handed to a least-squares solver, and of the centred, unit-variance
+    design (the structural predicate of the rank-cutoff mechanism)."""
+    n = len(colmap[Z[0]])
+    raw = np.column_stack([np.ones(n)] + [np.asarray(colmap[z], float) for z in Z])
+    std = np.column_stack([np.ones(n)] + [_standardise(colmap[z])[0] for z in Z])
+    sr = np.linalg.svd(raw, compute_uv=False)
+    ss = np.linalg.svd(std, compute_uv=False)
+    return {"raw": float(sr[-1] / sr[0]) if sr[0] > 0 else 0.0, "std": float(ss[-1] / ss[0]), "cutoff": EPS * max(raw.shape)}
 
 
 # ======================================================================= frame building
-def build_df(spec, extra_rows=None, demean=False, affine=None):
+def _expand(vals, spec):
+    rep, tail = spec.get("rep", 1), spec.get("tail", 0)
+    if rep <= 1:
+        return list(vals)
+    head = vals[:len(vals) - tail]
+    return [v for v in head for _ in range(rep)] + list(vals[len(vals) - tail:])
+
+
+def transformed_colmap(spec, tf=None, standardise=()):
+    """the float columns as stored after the affine maps tf = {var: [a, b]} (exactly the arithmetic of build_df)."""
+    out = {}
+    for c in spec["cols"]:
+        a = np.array(c["values"], dtype=float)
+        if tf and c["name"] in tf:
+            a = tf[c["name"]][0] * a + tf[c["name"]][1]
+        if c["name"] in standardise:
+            a = a - a.mean()
+            a = a / math.sqrt(float((a * a).mean()))
+        out[c["name"]] = a
+    return out
+
+
+def build_df(spec, extra_rows=None, demean=False, affine=None, standardise=()):
     import pandas as pd
     data, names = {}, []
+    fl = transformed_colmap(spec, affine, standardise) if spec["kind"] in ("cont",) or spec.get("ci") == "pearsonr" else None
     for c in spec["cols"]:
-        vals = list(c["values"])
+        vals = _expand(c["values"], spec) if fl is None else None
         if extra_rows:
             vals += [r[c["name"]] for r in extra_rows]
         dt = c["dtype"]
@@ -450,11 +581,9 @@ def build_df(spec, extra_rows=None, demean=False, affine=None):
         elif dt == "obj":
             s = pd.Series(vals, dtype=object)
         else:
-            a = np.array(vals, dtype=float)
+            a = fl[c["name"]] if fl is not None else np.array(vals, dtype=float)
             if demean:
                 a = a - a.mean()
-            if affine and affine["var"] == c["name"]:
-                a = affine["a"] * a + affine["b"]
             s = pd.Series(a)
         data[c["name"]] = s
         names.append(c["name"])
@@ -470,7 +599,7 @@ def build_df(spec, extra_rows=None, demean=False, affine=None):
 
 
 def colmap_of(spec, extra_rows=None):
-    return {c["name"]: list(c["values"]) + ([r[c["name"]] for r in extra_rows] if extra_rows else [])
+    return {c["name"]: _expand(c["values"], spec) + ([r[c["name"]] for r in extra_rows] if extra_rows else [])
             for c in spec["cols"]}
 
 
@@ -810,17 +939,49 @@ def pearson_pair(r):
     return float(r[0]), float(r[1])
 
 
-def pearson_close(a, b):
-    return _close(a[0], b[0], 1e-8, 0) and _close(a[1], b[1], 1e-9, 1e-6)
+TOL_MAX = 0.05
+
+
+def pearson_matches(got, want):
+    """got = (r, p) from pgmpy, want = oracle dict with tolerances derived from the conditioning of the stored data."""
+    return (got[0] == got[0] and abs(got[0] - want["r"]) <= want["tol_r"]
+            and got[1] == got[1] and abs(got[1] - want["p"]) <= want["tol_p"])
+
+
+def classify_pearson(ctx, fn, X, Y, Z, spec, tf, want):
+    """structural classifier for a pearsonr answer that differs from the oracle; None = not attributable.
+    K_RANK : the raw design [1, Z] handed to numpy.linalg.lstsq(rcond=None) has sigma_min/sigma_max at or below the
+             default rank cutoff eps*max(n, k+1) although the centred unit-variance design is well conditioned, and the
+             same call with the Z columns centred and scaled to unit variance (X, Y untouched) agrees with the oracle.
+    K_NOINT: the same call on column-centred data agrees with the oracle (regression without intercept)."""
+    if not Z:
+        return None
+    try:
+        cond = design_conditioning(transformed_colmap(spec, tf), Z)
+        if cond["raw"] <= 10 * cond["cutoff"] and cond["std"] >= 1e-6:
+            r2 = ctx.call(fn, X, Y, list(Z), build_df(spec, affine=tf, standardise=tuple(Z)), boolean=False)
+            if not ctx.failed(r2) and pearson_matches(pearson_pair(r2), want):
+                return K_RANK
+        r2 = ctx.call(fn, X, Y, list(Z), build_df(spec, affine=tf, demean=True), boolean=False)
+        if not ctx.failed(r2) and pearson_matches(pearson_pair(r2), want):
+            return K_NOINT
+    except Exception:
+        pass
+    return None
+
+
+WHY = {K_RANK: "; sigma_min/sigma_max of the raw design [1, Z] is at or below numpy.lstsq's default rank cutoff and the "
+               "same call with the Z columns centred and scaled to unit variance agrees with the oracle",
+       K_NOINT: "; on column-centred data the same call agrees with the oracle"}
 
 
 def run_cont(spec, ctx):
     from pgmpy.estimators import CITests as C
     df = build_df(spec)
-    colmap = colmap_of(spec)
-    dfc = None
+    colmap = transformed_colmap(spec)
     ctx.feature("kind:cont")
     ctx.feature("means:" + spec["meanmode"])
+    ctx.feature("units:" + spec["units"])
     digest = []
     nontriv = False
     for pr in spec["probes"]:
@@ -828,7 +989,7 @@ def run_cont(spec, ctx):
         Zarg = tuple(Z) if zt else list(Z)
         ctx.feature(f"pearsonr |Z|={len(Z)}")
         detail = dict(X=X, Y=Y, Z=Z)
-        want = oracle_pearson(colmap, X, Y, Z)
+        want = oracle_pearson(colmap, X, Y, Z, full=True)
         r = ctx.call(C.pearsonr, X, Y, Zarg, df, boolean=False)
         if ctx.failed(r):
             ctx.violation(f"c19:exception:{r.type}@{r.where}", f"pearsonr raised {r!r}", **detail)
@@ -841,51 +1002,52 @@ def run_cont(spec, ctx):
         if Z:
             nontriv = True
         digest.append(_enc(got))
-        if pearson_close(got, want):
+        base_ok = pearson_matches(got, want)
+        if want["tol_r"] > TOL_MAX:
+            ctx.note("pearsonr-too-ill-conditioned-to-call")
+        elif base_ok:
             ctx.ok()
         else:
-            # classifier: the mechanism "regression on Z without a constant column" is neutral on centred data
-            key = "c19:pearsonr:wrong-coefficient"
-            if Z:
-                if dfc is None:
-                    dfc = build_df(spec, demean=True)
-                r2 = ctx.call(C.pearsonr, X, Y, Zarg, dfc, boolean=False)
-                try:
-                    if not ctx.failed(r2) and pearson_close(pearson_pair(r2), want):
-                        key = K_NOINT
-                except Exception:
-                    pass
+            key = classify_pearson(ctx, C.pearsonr, X, Y, Z, spec, None, want) or "c19:pearsonr:wrong-coefficient"
             ctx.violation(key, f"pearsonr gives (r, p) = {got}; Pearson's test on the residuals of the regressions of "
-                          f"X and Y on Z with intercept gives {want}"
-                          + ("; on column-centred data the same call agrees with the oracle" if key == K_NOINT else ""),
-                          **detail)
-        # affine invariance
+                          f"X and Y on Z with intercept gives ({want['r']!r}, {want['p']!r}) (tolerance {want['tol_r']:.1e} "
+                          f"on r at |mean|/sd <= {want['rho']:.1e})" + WHY.get(key, ""), **detail)
+        # affine invariance: v -> a*v + b on X, on Y, on a member of Z, on all variables together
         for mp in pr["maps"]:
-            d2 = build_df(spec, affine=mp)
+            tf = mp["tf"]
+            scales = [abs(math.log10(ab[0])) for ab in tf.values()]
+            ctx.feature("affine:" + mp["label"])
+            if max(scales) >= 4:
+                ctx.feature("affine:scale-beyond-1e4")
+            if any(abs(ab[1]) >= 1e3 for ab in tf.values()):
+                ctx.feature("affine:shift-beyond-1e3")
+            d2 = build_df(spec, affine=tf)
+            cm2 = transformed_colmap(spec, tf)
+            want2 = oracle_pearson(cm2, X, Y, Z, full=True)
+            if want2["tol_r"] > TOL_MAX:
+                ctx.note("pearsonr-too-ill-conditioned-to-call")
+                continue
+            if abs(want2["r"] - want["r"]) > 1e-7:
+                ctx.note("affine-image-not-representable")          # cannot happen inside RHO_MAX; never a verdict
+                continue
             r2 = ctx.call(C.pearsonr, X, Y, Zarg, d2, boolean=False)
+            what = ", ".join(f"{v!r} -> {ab[0]:.3g}*v + {ab[1]:.3g}" for v, ab in tf.items())
             if ctx.failed(r2):
-                ctx.violation(f"c19:exception:{r2.type}@{r2.where}", f"pearsonr after affine map raised {r2!r}", **detail)
+                ctx.violation(f"c19:exception:{r2.type}@{r2.where}", f"pearsonr after {what} raised {r2!r}", **detail)
                 continue
             try:
                 g2 = pearson_pair(r2)
             except Exception as e:
                 ctx.violation("c19:malformed-result", f"pearsonr: {e}", **detail)
                 continue
-            if pearson_close(g2, got):
+            if pearson_matches(g2, want2):
                 ctx.ok()
                 continue
-            key = "c19:pearsonr:affine-dependent"
-            if Z and mp["b"] != 0:
-                d3 = build_df(spec, affine=dict(mp, b=0.0))
-                r3 = ctx.call(C.pearsonr, X, Y, Zarg, d3, boolean=False)
-                try:
-                    if not ctx.failed(r3) and pearson_close(pearson_pair(r3), got):
-                        key = K_NOINT             # pure rescaling is harmless, the shift alone changes the answer
-                except Exception:
-                    pass
-            ctx.violation(key, f"pearsonr changes from {got} to {g2} when {mp['var']!r} is replaced by "
-                          f"{mp['a']}*v + {mp['b']}" + ("; rescaling alone leaves it unchanged" if key == K_NOINT else ""),
-                          **detail)
+            key = classify_pearson(ctx, C.pearsonr, X, Y, Z, spec, tf, want2) or \
+                ("c19:pearsonr:affine-dependent" if base_ok else "c19:pearsonr:wrong-coefficient")
+            ctx.violation(key, f"pearsonr gives {got} on the stored data and {g2} after {what}; the test on the "
+                          f"transformed data is ({want2['r']!r}, {want2['p']!r}) (tolerance {want2['tol_r']:.1e} on r)"
+                          + WHY.get(key, ""), **detail)
         check_verdicts(ctx, lambda a: ctx.call(C.pearsonr, X, Y, Zarg, df, boolean=True, significance_level=a),
                        got[1], "pearsonr", extra_alpha=pr.get("alpha"), **detail)
     ctx.nontrivial = nontriv
@@ -904,7 +1066,7 @@ def run_pc(spec, ctx):
     ctx.feature(f"pc:{name}")
     ctx.feature(f"pc:{spec['variant']}")
     df = build_df(spec)
-    colmap = colmap_of(spec)
+    colmap = transformed_colmap(spec) if name == "pearsonr" else colmap_of(spec)
     est = ctx.call(PCcls, df)
     if ctx.failed(est):
         ctx.violation(f"c19:exception:{est.type}@{est.where}", f"PC(data) raised {est!r}")
@@ -941,7 +1103,6 @@ def run_pc(spec, ctx):
         ctx.violation("c19:pc:test-not-called", f"PC.{spec['via']}(ci_test={name!r}) never called CI_TESTS[{name!r}]")
         return
     tabcache = {}
-    dfc = None
     calls_by_pair = {}
     for t in trace:
         X, Y, Z = t["X"], t["Y"], list(t["Z"])
@@ -953,15 +1114,17 @@ def run_pc(spec, ctx):
         ctx.expect(sl == alpha, "c19:pc:significance-level-not-passed",
                    f"build_skeleton was given significance_level={alpha} but called the test with {sl!r}", **detail)
         ctx.expect(t["kw"].get("data") is est.data, "c19:pc:wrong-data", "CI test called on a different frame", **detail)
+        slack = 1e-7
         if name == "pearsonr":
-            want_p = oracle_pearson(colmap, X, Y, Z)[1]
+            wp = oracle_pearson(colmap, X, Y, Z, full=True)
+            want_p, slack = wp["p"], (max(1e-7, wp["tol_p"]) if wp["tol_r"] <= TOL_MAX else 2.0)
         else:
             k = (X, Y, tuple(Z))
             if k not in tabcache:
                 tabcache[k] = strata_tables(colmap, X, Y, Z)
             w = oracle_cit(tabcache[k], PC_NAMES[name])
             want_p = w["p"]
-        if abs(want_p - alpha) < 1e-7:
+        if abs(want_p - alpha) < slack:
             ctx.note("pc-verdict-too-close-to-call")
             continue
         want = want_p >= alpha
@@ -972,14 +1135,7 @@ def run_pc(spec, ctx):
         if name != "pearsonr" and w["dof"] == 0 and Z and want and not t["out"]:
             key = K_DOF0
         elif name == "pearsonr" and Z:
-            if dfc is None:
-                dfc = build_df(spec, demean=True)
-            r2 = ctx.call(C.pearsonr, X, Y, Z, dfc, boolean=False)
-            try:
-                if not ctx.failed(r2) and _close(pearson_pair(r2)[1], want_p, 1e-9, 1e-6):
-                    key = K_NOINT
-            except Exception:
-                pass
+            key = classify_pearson(ctx, C.pearsonr, X, Y, Z, spec, None, wp) or key
         ctx.violation(key, f"verdict {bool(t['out'])} consumed by the skeleton search for {X} _|_ {Y} | {Z}; the "
                       f"documented {name} test has p = {want_p!r} against significance_level {alpha}", **detail)
     # the function registered under the name computes the named test (boolean=False on up to 3 traced triples)
@@ -989,22 +1145,18 @@ def run_pc(spec, ctx):
         r = ctx.call(orig, X, Y, t["Z"], est.data, boolean=False)
         label = f"PC.CI_TESTS[{name!r}]"
         if name == "pearsonr":
-            want = oracle_pearson(colmap, X, Y, Z)
+            want = oracle_pearson(colmap, X, Y, Z, full=True)
             try:
                 if ctx.failed(r):
                     ctx.violation(f"c19:exception:{r.type}@{r.where}", f"{label} raised {r!r}")
-                elif pearson_close(pearson_pair(r), want):
+                elif want["tol_r"] > TOL_MAX:
+                    ctx.note("pearsonr-too-ill-conditioned-to-call")
+                elif pearson_matches(pearson_pair(r), want):
                     ctx.ok()
                 else:
-                    key = "c19:pearsonr:wrong-coefficient"
-                    if Z:
-                        if dfc is None:
-                            dfc = build_df(spec, demean=True)
-                        r2 = ctx.call(orig, X, Y, Z, dfc, boolean=False)
-                        if not ctx.failed(r2) and pearson_close(pearson_pair(r2), want):
-                            key = K_NOINT
-                    ctx.violation(key, f"{label} gives {pearson_pair(r)}, intercept-residual Pearson test gives {want}",
-                                  X=X, Y=Y, Z=Z)
+                    key = classify_pearson(ctx, orig, X, Y, Z, spec, None, want) or "c19:pearsonr:wrong-coefficient"
+                    ctx.violation(key, f"{label} gives {pearson_pair(r)}, intercept-residual Pearson test gives "
+                                  f"({want['r']!r}, {want['p']!r})" + WHY.get(key, ""), X=X, Y=Y, Z=Z)
             except Exception as e:
                 ctx.violation("c19:malformed-result", f"{label}: {e}")
         else:
